@@ -266,7 +266,17 @@ def run(plan, ch, want_log=False):
     K = Kernel(ch, max_steps=400_000, max_time_ns=3600 * 10**9)
     if want_log:
         K.tracelog = []
-    ncfg = dict(lat=(net["lat_lo"], net["lat_hi"]), faultable=wire.faultable, drop_pct=net.get("drop", 0), dup_pct=net.get("dup", 0),
+    ctrl_norm = fakes.Net.norm(CTRL)
+
+    def faultable(frames, addr):
+        # everything that crosses the network: the acknowledged layer's own frames, and ANY frame an executor-side process sends
+        # to the controller's listener (on the unchanged tree there is none that is not a Syn/Ack; a notice passed on with the
+        # fire-and-forget helper is exactly what a lossy link loses)
+        if wire.faultable(frames, addr):
+            return True
+        cur = K.cur()
+        return addr == ctrl_norm and cur is not None and cur.proc.name != "ctrl"
+    ncfg = dict(lat=(net["lat_lo"], net["lat_hi"]), faultable=faultable, drop_pct=net.get("drop", 0), dup_pct=net.get("dup", 0),
                 max_drops_per_message=net.get("max_consec"), fault_key=wire.fault_key, plan=net.get("plan"))
     fakes.new_world(K, ncfg)
     if plan.get("slow"):
